@@ -55,6 +55,10 @@ CLAIMED.update({
  'C03': dict(text='Narrow claim: only the copy-on-write mechanism behind "earlier report steps are immutable" is decided - ScheduleState::ptr_member<T> and map_member<K,T>, instantiated from the real header and executed with symbolic contents: after copying a state member and replacing/adding entries in the copy, every query on the original returns what it returned before (same values, same object addresses) and untouched entries remain shared.',
              note='the larger part of the property (every keyword handler\'s fetch-copy-modify-update discipline, iterateScheduleSection, the DATES/TSTEP partition) needs a whole Schedule and is outside: a handler that mutates through a shared pointer is not seen by this check', design='4/C03'),
 })
+CLAIMED.update({
+ 'C17': dict(text='Set and function algebra only: UDQSet/UDQScalar arithmetic in all operand forms (set-set, set-scalar, scalar-set, scalar-SET broadcast) with definedness propagation, and the UDQ function implementations (reductions SUM/AVEA/AVEH/MAX/MIN/PROD/NORM1/NORM2/NORMI, elemental ABS/DEF/UNDEF/IDV/EXP/SORTA/SORTD, union UADD/UMUL/UMAX/UMIN) are executed with symbolic values and symbolic defined-flags over a 3-well set and compared element by element with the documented semantics. (Found and fixed: scalar - set returned set - scalar.)',
+             note='the expression parser (precedence ladder), AST evaluation, UDQConfig::eval ordering of ASSIGN/DEFINE/UPDATE, wildcard matching and UDQState are outside; doubles as reals, divisors non-zero', design='4/C17'),
+})
 NA = {
 }
 ALL = ['C%02d' % i for i in range(1, 21)]
